@@ -373,7 +373,7 @@ def seq_exit_oracle(kinds):
     return "fall:0", ran
 
 
-def explore_py(kinds, parts, guarded=True, prefer=True):
+def explore_py(kinds, parts, guarded=True, prefer=True, case_ret=True, case_err=True):
     """All interleavings of the hand-off protocol (independent re-implementation of the transition system).
     State: (threads((todo, pc, cur),…), slot, why, ret, released, ran, skipped)."""
     n = len(parts)
@@ -390,9 +390,9 @@ def explore_py(kinds, parts, guarded=True, prefer=True):
         if all(t[1] == "z" for t in ths):
             w = 4 if (prefer and slot is not None) else why
             cur0 = ths[0][2]
-            if w == 3:
+            if w == 3 and case_ret:
                 out = "ret:%s" % ("none" if ret is None else ret)
-            elif w == 4:
+            elif w == 4 and case_err:
                 out = "raise:%s" % ("none" if slot is None else slot)
                 if cur0 is not None:
                     rel = tuple(sorted(rel + (cur0,)))
@@ -478,6 +478,158 @@ def parse_exit(res):
     ran = [k for k, v in enumerate(m.group(2).split(",")) if v == "1"] if m.group(2) else []
     who = [int(v) for v in m.group(3).split(",")] if m.group(3) else []
     return m.group(1), ran, who, int(m.group(4)), int(m.group(5))
+
+
+# --------------------------------------------------------------------------
+# leg 2, static shape of the body as a generated dimension: which of raise / break / return / continue the loop body
+# CONTAINS decides which labels are used, hence which fix-up / switch cases end_parallel_control_flow_block emits.
+
+SUBSETS = ["".join(c for c, m in zip("xbrc", bits) if m) for bits in itertools.product((1, 0), repeat=4) if any(bits)]
+FORMS = ("p1", "p0", "w")       # p1: prange + else clause + return after the loop; p0: prange, no else, no other return
+                                # w: prange inside `with parallel()`, return after the loop
+KCODE = {"b": 1, "r": 2, "x": 3, "c": 4}
+
+
+def shape_func(form, S):
+    ind = "        " if form == "w" else "    "
+    L = ["cdef int sx_%s_%s(int[::1] kind, int[::1] ran, int[::1] who, int[::1] delay, int[::1] flags, int[::1] tail, "
+         "int nthreads, int chunk) except -2:" % (form, S), "    cdef int i", "    cdef int n = kind.shape[0]"]
+    if form == "w":
+        L += ["    with nogil, parallel(num_threads=nthreads):",
+              "        for i in prange(n, schedule='static', chunksize=chunk):"]
+    else:
+        L += ["    for i in prange(n, nogil=True, num_threads=nthreads, schedule='static', chunksize=chunk):"]
+    b = ind + "    "
+    L += [b + "who[i] = threadid()", b + "ran[i] = 1", b + "if delay[i] > 0:", b + "    usleep(delay[i])"]
+    kw = "if"
+    for ch, stmt in (("b", "break"), ("r", "return 1000 + i"), ("x", None), ("c", "continue")):
+        if ch in S:
+            L.append(b + "%s kind[i] == %d:" % (kw, KCODE[ch]))
+            if ch == "x":
+                L += [b + "    with gil:", b + "        raise Tracked(i)"]
+            else:
+                L.append(b + "    " + stmt)
+            kw = "elif"
+    L.append(b + "tail[i] = 1")
+    if form == "p1":
+        L += [ind + "else:", ind + "    flags[0] = 1"]
+    L.append("    flags[1] = 1")
+    if form != "p0":
+        L.append("    return -1")
+    return "\n".join(L) + "\n\n"
+
+
+SHAPE_TAIL = r"""
+def run_shape(fname, kinds, delays, int nthreads, int chunk):
+    kind = np.array(kinds, dtype=np.intc)
+    delay = np.array(delays, dtype=np.intc)
+    ran = np.zeros(len(kinds), dtype=np.intc)
+    who = np.full(len(kinds), -1, dtype=np.intc)
+    tail = np.zeros(len(kinds), dtype=np.intc)
+    flags = np.zeros(2, dtype=np.intc)
+    gc.collect()
+    c0 = _created[0]
+    f0 = _finalized[0]
+    try:
+        r = _dispatch(fname, kind, ran, who, delay, flags, tail, nthreads, chunk)
+        out = ("ret:%d" % (r - 1000)) if r >= 1000 else "fall"
+    except Tracked as e:
+        out = "raise:%d" % e.idx
+        e = None
+    except BaseException as e:
+        out = "other:" + type(e).__name__
+        e = None
+    gc.collect()
+    return "%s|%s|%s|%d|%d|%d,%d|%s" % (out, ",".join(str(x) for x in ran), ",".join(str(x) for x in who),
+                                        _created[0] - c0, _finalized[0] - f0, flags[0], flags[1], ",".join(str(x) for x in tail))
+"""
+
+
+def shape_source(form):
+    src = EXIT_HEAD
+    disp = "\ndef _dispatch(fname, kind, ran, who, delay, flags, tail, nthreads, chunk):\n"
+    for S in SUBSETS:
+        src += shape_func(form, S)
+        disp += "    if fname == %r:\n        return sx_%s_%s(kind, ran, who, delay, flags, tail, nthreads, chunk)\n" % (S, form, S)
+    disp += "    raise KeyError(fname)\n"
+    return src + disp + SHAPE_TAIL
+
+
+def shape_emitted(so, form):
+    """Re-read the generated C of every compiled static shape: per function, how many control-flow blocks restore an
+    exception (`case 4`), how many of them have the `if (exc_type) why = 4` fix-up, is there a `case 3`."""
+    cpath = os.path.join(os.path.dirname(so), "c37sx%s.c" % form)
+    txt = open(cpath).read()
+    starts = [(m.start(), m.group(1)) for m in re.finditer(r"\nstatic int __pyx_f_\w*?sx_%s_([xbrc]+)\([^;{]*\)\s*\{" % form, txt)]
+    out = {}
+    for j, (pos, S) in enumerate(starts):
+        end = starts[j + 1][0] if j + 1 < len(starts) else txt.find("\n/* Python wrapper */", pos)
+        seg = txt[pos:end if end > 0 else len(txt)]
+        out[S] = {"fixups": len(re.findall(r"if \(__pyx_parallel_exc_type\) \{\s*(?:/\*.*?\*/\s*)?__pyx_parallel_why = 4;\s*\}", seg, re.S)),
+                  "case4": len(re.findall(r"case 4:\s*\{[^}]*?__Pyx_ErrRestoreWithState\(__pyx_parallel_exc_type", seg, re.S)),
+                  "case3": len(re.findall(r"case 3: goto", seg)),
+                  "guarded_fetch": len(re.findall(r"if \(!__pyx_parallel_exc_type\) \{\s*__Pyx_ErrFetchWithState", seg)),
+                  "fetch": seg.count("__Pyx_ErrFetchWithState(&__pyx_parallel_exc_type")}
+    return out
+
+
+def gen_shape_case(rng, small):
+    S = rng.choice(SUBSETS)
+    form = rng.choice(FORMS)
+    n = rng.randint(1, 5) if small else rng.randint(2, 40)
+    nthreads = rng.randint(1, 3) if small else rng.choice((2, 2, 3, 4, 8, 16, rng.randint(1, 16)))
+    dens = rng.choice((0.3, 0.6, 0.9)) if small else rng.choice((0.1, 0.3, 0.6))
+    kinds = [KCODE[rng.choice(S)] if rng.random() < dens else 0 for _ in range(n)]
+    delays = [0] * n
+    if rng.random() < 0.7:
+        for k in range(n):
+            if kinds[k]:
+                delays[k] = rng.choice((0, 300, 1000, 2500))
+    return {"kinds": kinds, "delays": delays, "nthreads": nthreads, "chunk": rng.choice((1, 1, 2)), "variant": "staticc",
+            "shape": S, "form": form}
+
+
+def shape_scenarios():
+    """For every static shape and every ordered pair of exit statements it contains: the first exits at once, the second
+    2.5 ms later on another thread (later store to parallel_why wins); plus every single exit."""
+    out = []
+    for S in SUBSETS:
+        ex = [c for c in S]
+        for form in FORMS:
+            for a in ex:
+                out.append({"kinds": [KCODE[a], 0], "delays": [0, 0], "nthreads": 2, "chunk": 1, "variant": "staticc", "shape": S, "form": form})
+                for b2 in ex:
+                    if a != b2 and "c" not in (a, b2):
+                        out.append({"kinds": [KCODE[a], KCODE[b2]], "delays": [0, 2500], "nthreads": 2, "chunk": 1,
+                                    "variant": "staticc", "shape": S, "form": form})
+    return out
+
+
+def parse_shape(res, case):
+    m = re.match(r"ok str:'([^|']*)\|([^|']*)\|([^|']*)\|(-?\d+)\|(-?\d+)\|(\d+),(\d+)\|([^|']*)'$", res)
+    if not m:
+        return None
+    ran = [k for k, v in enumerate(m.group(2).split(",")) if v == "1"]
+    who = [int(v) for v in m.group(3).split(",")]
+    tail = [int(v) for v in m.group(8).split(",")]
+    out = m.group(1)
+    els, fin = int(m.group(6)), int(m.group(7))
+    kinds = case["kinds"]
+    problems = []
+    if out == "fall":
+        if case["form"] == "p1":
+            out = "fall:0" if els else "fall:2"
+        else:
+            out = "fall:2" if any(kinds[k] == 1 for k in ran) else "fall:0"
+        if not fin:
+            problems.append("statement after the loop not executed although the loop fell through")
+    elif fin:
+        problems.append("statement after the loop executed although the loop was left by %s" % out)
+    for k in ran:
+        if tail[k] != (1 if kinds[k] == 0 else 0):
+            problems.append("iteration %d (kind %d): rest of the body %s" % (k, kinds[k], "executed" if tail[k] else "skipped"))
+            break
+    return (out, ran, who, int(m.group(4)), int(m.group(5))), problems
 
 
 # --------------------------------------------------------------------------
@@ -607,12 +759,13 @@ def parts_static(n, nthreads, chunk):
     return parts
 
 
-def check_exit(ctx, case, res, omp, variant_flags, lines, meta, reach_cache):
+def check_exit(ctx, case, res, omp, variant_flags, lines, meta, reach_cache, parsed=None, emit=None, problems=()):
     kinds, nthreads = case["kinds"], case["nthreads"]
     n = len(kinds)
     rep = {"leg": 2, "case": case, "openmp": omp}
-    ctx.count("leg2/%s/%s/threads=%d" % ("omp" if omp else "noomp", case["variant"], nthreads if omp else 1))
-    pr = parse_exit(res)
+    vname = case["variant"] if "shape" not in case else "shape-%s-%s" % (case["form"], case["shape"])
+    ctx.count("leg2/%s/%s/threads=%d" % ("omp" if omp else "noomp", vname, nthreads if omp else 1))
+    pr = parsed if parsed is not None else parse_exit(res)
     if pr is None:
         key = "exit-crash" if res.startswith(("crash", "timeout")) else "exit-run-failed"
         ctx.violation(key, "run_exit(%s, kinds=%s, threads=%d): %s" % (case["variant"], "".join(KCH[k] for k in kinds)[:60], nthreads, res[:100]), rep)
@@ -620,8 +773,10 @@ def check_exit(ctx, case, res, omp, variant_flags, lines, meta, reach_cache):
     out, ran, who, created, finalized = pr
     kstr = "".join(KCH[k] for k in kinds)
     desc = "run_exit(%s, kinds=%s, delays=%s, threads=%d, chunk=%d) -> %s ran=%s" % (
-        case["variant"], kstr[:70], str(case["delays"])[:60], nthreads, case["chunk"], out, str(ran)[:80])
-    ctx.seen((case["variant"], kstr, nthreads, case["chunk"], out, tuple(ran)), nontrivial=any(kinds))
+        vname, kstr[:70], str(case["delays"])[:60], nthreads, case["chunk"], out, str(ran)[:80])
+    ctx.seen((vname, kstr, nthreads, case["chunk"], out, tuple(ran)), nontrivial=any(kinds))
+    for pb in problems:
+        ctx.violation("exit-body-control-flow", desc + ": " + pb, rep)
     nraise = sum(1 for k in ran if kinds[k] == 3)
     ctx.count("leg2/outcome/" + out.split(":")[0] + ("/several-raised" if nraise > 1 else ""))
     if created != nraise:
@@ -653,7 +808,7 @@ def check_exit(ctx, case, res, omp, variant_flags, lines, meta, reach_cache):
         for o in alts:
             lines.append("C37 allowed %s %s %s" % (kstr, lst(ran), o))
             meta.append(("allowed", o, "true" if allowed_py(kinds, ran, o) else "false", o == out, desc, rep))
-    small = n <= 5 and nthreads <= 3 and case["variant"] == "staticc"
+    small = n <= 5 and nthreads <= 3 and case["variant"] == "staticc" and case.get("form") != "w"
     if small:
         parts = parts_static(n, nthreads if omp else 1, case["chunk"])
         if any(who[k] != t for t, p in enumerate(parts) for k in p if k in ran):
@@ -661,10 +816,14 @@ def check_exit(ctx, case, res, omp, variant_flags, lines, meta, reach_cache):
             return
         g, p = variant_flags
         pk = "|".join(lst(x) for x in parts)
-        key = (kstr, pk)
+        key = (kstr, pk) + (tuple(emit) if emit else ())
         if key not in reach_cache:
-            reach_cache[key] = explore_py(kinds, parts, g, p)
-            lines.append("C37 reach %d %d %s %s" % (g, p, kstr, pk))
+            if emit:
+                reach_cache[key] = explore_py(kinds, parts, emit[0], emit[1], emit[2], emit[3])
+                lines.append("C37 reachE %d %d %d %d %s %s" % (emit[0], emit[1], emit[2], emit[3], kstr, pk))
+            else:
+                reach_cache[key] = explore_py(kinds, parts, g, p)
+                lines.append("C37 reach %d %d %s %s" % (g, p, kstr, pk))
             meta.append(("reach", key, None, None, desc, rep))
         proj = set((f.split(" ")[0], f.split(" ")[1]) for f in reach_cache[key])
         ctx.count("leg2/small/reach-checked")
@@ -686,7 +845,7 @@ def settle_exit(ctx, lines, meta, reach_cache):
             _, key, _, _, desc, rep = m
             py = ";".join(sorted(reach_cache[key]))
             if o != "ok " + py:
-                ctx.tie_break("CyVerif.C37 reach vs Python exploration", "kinds=%s parts=%s: model %s / oracle %s" % (key[0], key[1], o[:150], py[:150]), rep)
+                ctx.tie_break("CyVerif.C37 reach vs Python exploration", "kinds=%s parts=%s emit=%s: model %s / oracle %s" % (key[0], key[1], key[2:], o[:150], py[:150]), rep)
 
 
 def run(ctx):
@@ -719,7 +878,12 @@ def run(ctx):
         cfgs.append(("ompO2", OMPFLAGS, ["-fopenmp"], "-O2"))
     specs, keys = [], []
     for cname, cfl, ldf, opt in cfgs:
-        for mname, src in (("c37reda", red_source("a")), ("c37redb", red_source("b")), ("c37exit", ex_src)):
+        mlist = [("c37reda", red_source("a")), ("c37redb", red_source("b")), ("c37exit", ex_src)]
+        if cname == "omp":
+            mlist += [("c37sxp1", shape_source("p1")), ("c37sxp0", shape_source("p0")), ("c37sxw", shape_source("w"))]
+        elif not ctx.quick:       # the sequential cell / -O2 of the static shapes only in the thorough tier (build cost)
+            mlist += [("c37sxp1", shape_source("p1"))]
+        for mname, src in mlist:
             specs.append(dict(name=mname, source=src, cflags=cfl, ldflags=ldf, opt=opt))
             keys.append((mname, cname))
     built = cybuild.build_many(ctx, specs)
@@ -794,7 +958,8 @@ def run(ctx):
     if replay is None or replay.get("leg") == 2:
         todo = []
         if replay:
-            todo.append((ex_omp if replay.get("openmp", True) else ex_no, replay.get("openmp", True), 0, replay["case"]))
+            if "shape" not in replay["case"]:
+                todo.append((ex_omp if replay.get("openmp", True) else ex_no, replay.get("openmp", True), 0, replay["case"]))
         else:
             # boundary scenarios first: several raises at once; raise then late break / return (why=4 overwritten); return then break
             scen = [([3, 3], [0, 0], 2), ([3, 3, 3, 3], [300, 0, 300, 0], 4), ([3, 1], [0, 2500], 2), ([3, 2], [0, 2500], 2),
@@ -830,6 +995,71 @@ def run(ctx):
                     wit_rb[0] += int("'fall:2|" in res)
                 if len(ctx.samples) < 6 and any(c["kinds"]):
                     ctx.sample({"leg": 2, "kinds": "".join(KCH[k] for k in c["kinds"])[:40], "threads": c["nthreads"], "result": res[:120]})
+        # ---- static shape of the body as a dimension (15 subsets of raise/break/return/continue x 3 forms)
+        emitted = {}
+        for form in FORMS:
+            try:
+                emitted[form] = shape_emitted(mods[("c37sx" + form, "omp")], form)
+            except Exception as e:      # the translator cannot read the C any more: a broken tie, not a crash
+                emitted[form] = {}
+                ctx.obligation("generated C of the static-shape variants (%s) is readable" % form, False, repr(e)[:200])
+            bad = []
+            for S in SUBSETS:
+                inf = emitted[form].get(S)
+                if inf is None:
+                    bad.append(S + ":not-found")
+                elif not (inf["fixups"] == inf["case4"] and (inf["case4"] > 0) == ("x" in S) and (inf["case3"] > 0) == ("r" in S)
+                          and inf["guarded_fetch"] == inf["fetch"] and (inf["fetch"] > 0) == ("x" in S)):
+                    bad.append("%s:%s" % (S, inf))
+            ctx.obligation("form %s: every compiled static shape has the emission of srcEmit (fix-up and case 4 with guarded fetch iff the "
+                           "body can raise, one fix-up per restoring block, case 3 iff the body contains return)" % form, not bad,
+                           "15 shapes re-read from the generated C" if not bad else "deviating shapes: " + "; ".join(bad)[:500])
+        ctx.notes["static_shapes"] = {f: {S: [v["fixups"], v["case4"], v["case3"]] for S, v in emitted[f].items()} for f in FORMS}
+
+        def emit_of(form, S):
+            inf = emitted.get(form, {}).get(S)
+            if inf is None:
+                return None
+            return (int(inf["guarded_fetch"] == inf["fetch"]), int(inf["fixups"] > 0 and inf["fixups"] == inf["case4"]),
+                    int(inf["case3"] > 0), int(inf["case4"] > 0))
+        stodo = []
+        if replay:
+            if "shape" in replay["case"]:
+                stodo.append((replay.get("openmp", True), 0, replay["case"]))
+        else:
+            for sc in shape_scenarios():
+                for rpt in range(ctx.n(1, 3)):
+                    stodo.append((True, 0, sc))
+                if not ctx.quick and sc["form"] == "p1" and len(sc["kinds"]) == 2 and sc["delays"][1]:
+                    stodo.append((False, 0, sc))
+            for r in range(ctx.n(300, 2500)):
+                stodo.append((True, rng.randrange(len(ENVS)), gen_shape_case(rng, small=(r % 2 == 0))))
+            for r in range(ctx.n(0, 300)):
+                c = gen_shape_case(rng, small=(r % 2 == 0))
+                c["form"] = "p1"
+                stodo.append((False, 0, c))
+            if not ctx.quick:
+                for r in range(800):
+                    c = gen_shape_case(rng, small=False)
+                    c["form"] = "p1"
+                    stodo.append(("O2", rng.randrange(len(ENVS)), c))
+        sgroups = {}
+        for item in stodo:
+            omp, env, c = item
+            cname = "ompO2" if omp == "O2" else ("omp" if omp else "noomp")
+            sgroups.setdefault((mods[("c37sx" + c["form"], cname)], env), []).append(item)
+        for (so, env), items in sgroups.items():
+            calls = [("run_shape", "(%r, %r, %r, %d, %d)" % (c["shape"], c.get("kinds_static", c["kinds"]), c["delays"], c["nthreads"], c["chunk"]))
+                     for (_, _, c) in items]
+            outs = run_batched(ctx, so, calls, ENVS[env], 30.0)
+            for (omp, env_, c), res in zip(items, outs):
+                c = dict(c)
+                c["kinds"] = list(c.get("kinds_static", c["kinds"]))
+                c["kinds_static"] = list(c["kinds"])
+                pp = parse_shape(res, c)
+                c["kinds"] = [0 if k == 4 else k for k in c["kinds"]]
+                check_exit(ctx, c, res, bool(omp), flags, lines, meta, reach_cache, parsed=pp[0] if pp else None,
+                           emit=emit_of(c["form"], c["shape"]), problems=pp[1] if pp else ())
         settle_exit(ctx, lines, meta, reach_cache)
         ctx.notes["return_then_break_witness"] = ("iteration 0 returns, iteration 1 (other thread) breaks 2.5 ms later: the function fell through "
                                                   "after the loop in %d of %d runs (allowed by the documentation; theorem return_can_lose_to_break)" % tuple(wit_rb))
